@@ -463,3 +463,29 @@ twin('C07-twin-dr-setter-equal-early-return', 'C07', DOg,
 FFg = 'pyPRISM/omega/FromFile.py'
 mutant('C12-loadtxt-single-precision', 'C12', 'R12.f', FFg, 'np.loadtxt(self.fileName)', 'np.loadtxt(self.fileName,dtype=np.float32)')
 twin('C12-twin-loadtxt-explicit-double', 'C12', FFg, 'np.loadtxt(self.fileName)', 'np.loadtxt(self.fileName,dtype=np.float64)')
+
+# ---- round h: API-evolution style changes --------------------------------------------------------------------------------
+LJg = 'pyPRISM/potential/LennardJones.py'
+mutant('C10-shift-flag-identity-test', 'C10', 'R10.f', LJg, '            if self.shift:', '            if self.shift is True:')
+twin('C10-twin-shift-flag-equality-test', 'C10', LJg, '            if self.shift:', '            if self.shift == True:')
+PTg = 'pyPRISM/core/PairTable.py'
+mutant('C14-getter-int-key-is-position', 'C14', 'R14.g', PTg, "        t1,t2 = index\n        return self.values[t1][t2]",
+       "        t1,t2 = index\n        if isinstance(t1,int):\n            t1 = self.types[t1]\n        if isinstance(t2,int):\n"
+       "            t2 = self.types[t2]\n        return self.values[t1][t2]")
+twin('C14-twin-getter-unpacks-by-position', 'C14', PTg, "        t1,t2 = index\n        return self.values[t1][t2]",
+     "        t1 = index[0]\n        t2 = index[1]\n        row = self.values[t1]\n        return row[t2]")
+
+# ---- one-component fast paths: the symbolic worlds assume a generic rank >= 2, rank 1 is decided concretely by R13.o --------
+MAg = 'pyPRISM/core/MatrixArray.py'
+_DOT_OLD = ("        if inplace:\n            self.data = np.einsum('lij,ljk->lik', self.data, other.data)\n            return self\n"
+            "        else:\n            data = np.einsum('lij,ljk->lik', self.data, other.data)\n"
+            "            return MatrixArray(length=self.length,rank=self.rank,data=data,space=self.space,types=self.types)")
+_DOT_NEW = ("        if self.rank == 1:\n            data = self.data * other.data\n        else:\n"
+            "            data = np.einsum('lij,ljk->lik', self.data, other.data)\n"
+            "        if inplace:\n            self.data = data\n            return self\n        else:\n"
+            "            return MatrixArray(length=self.length,rank=self.rank,data=data,space=self.space,types=self.types)")
+twin('C13-twin-rank-one-fast-path-after-guard', ['C13', 'C05', 'C01'], MAg, _DOT_OLD, _DOT_NEW)
+mutant('C13-rank-one-fast-path-before-guard', 'C13', 'R13.o', MAg,
+       "        if isinstance(other,MatrixArray):\n            assert (self.space == other.space) or (Space.NonSpatial in (self.space,other.space)),MatrixArray.SpaceError\n        if inplace:\n            self.data = np.einsum(",
+       "        if self.rank == 1 and not inplace:\n            return MatrixArray(length=self.length,rank=self.rank,data=self.data*other.data,space=self.space,types=self.types)\n"
+       "        if isinstance(other,MatrixArray):\n            assert (self.space == other.space) or (Space.NonSpatial in (self.space,other.space)),MatrixArray.SpaceError\n        if inplace:\n            self.data = np.einsum(")
